@@ -12,10 +12,11 @@ import (
 )
 
 type verifShape struct {
-	traces [4]int // traces per result, by depth
-	subs   [4]int // sub-results per trace, by depth
-	loc    [4]bool
-	lit    int // which of the trace value's actual / expected are typed literals taken from the data: bit 0 actual, bit 1 expected; 4 = actual is a quoted data node
+	traces                  [4]int // traces per result, by depth
+	subs                    [4]int // sub-results per trace, by depth
+	loc                     [4]bool
+	labelLayout, sizeLayout int // layouts of the two multi-valued properties of the mixed quoted node
+	lit                     int // which of the trace value's actual / expected are typed literals taken from the data: bit 0 actual, bit 1 expected; 4 = actual is a quoted data node, 5 = a quoted data node whose arrays mix plain values and typed literals
 }
 
 // verifQuotedNode: a node of the data graph quoted as the actual value of a trace (what an inverse
@@ -28,9 +29,35 @@ func verifQuotedNode() any {
 	return types.ObjectMap{"@id": "http://x/household", "@type": []any{"http://example.org/Household"},
 		"http://example.org/a": []any{lit("1"), lit("2")}, "http://example.org/b": []any{lit("3"), lit("4")},
 		"http://example.org/c": types.ObjectMap{"@id": "http://x/other"},
+		// a single-valued property whose name reads like an element of the array-valued property a
+		"http://example.org/a_0": lit("0"), "http://example.org/b_1": lit("1"),
 		// properties of two vocabularies with the same local name, single-valued and multi-valued
 		"http://example.org/v#size": lit("5"), "http://example.org/w#size": lit("6"), "http://example.org/w/size": lit("7"),
 		"http://example.org/v#list": []any{lit("8")}, "http://example.org/w#list": []any{lit("9")}}
+}
+
+// verifQuotedMixedNode: a quoted data node whose multi-valued properties mix plain values and typed
+// literals (a label given once as a plain string and once as a typed number), next to a property
+// with typed literals only.
+func verifQuotedMixedNode(labelLayout, sizeLayout int) any {
+	lit := func(s string) any {
+		return types.ObjectMap{"@type": "http://www.w3.org/2001/XMLSchema#integer", "@value": s}
+	}
+	layout := func(k int) any {
+		switch k {
+		case 0:
+			return []any{lit("1"), lit("2")}
+		case 1:
+			return []any{"plain", lit("2")}
+		case 2:
+			return []any{lit("1"), "plain"}
+		case 3:
+			return []any{"plain", "other"}
+		}
+		return lit("1")
+	}
+	return types.ObjectMap{"@id": "http://x/box", "@type": []any{"http://example.org/Box"},
+		"http://example.org/label": layout(labelLayout), "http://example.org/size": layout(sizeLayout), "http://example.org/tags": []any{"a", "b"}}
 }
 
 func verifLiteral(typed bool, val string) any {
@@ -55,6 +82,9 @@ func verifResultTree(sh *verifShape, depth int, name string) types.ObjectMap {
 			"actual": verifLiteral(sh.lit&1 != 0, "2020-01-01"), "expected": verifLiteral(sh.lit&2 != 0, "2021-01-01")}
 		if sh.lit == 4 {
 			tv["actual"] = verifQuotedNode()
+		}
+		if sh.lit == 5 {
+			tv["actual"] = verifQuotedMixedNode(sh.labelLayout, sh.sizeLayout)
 		}
 		if depth > 0 && sh.subs[depth] > 0 {
 			var subs []any
@@ -106,7 +136,12 @@ func verifCollectIds(x any, ids *[]string) {
 // that is unique in the document; one dialect instance encodes one report node.
 func VerifC12Ids() {
 	depth := 1 + v.Choice("depth", 3)
-	sh := &verifShape{lit: v.Choice("literals", 5)}
+	sh := &verifShape{lit: v.Choice("literals", 6), labelLayout: 1, sizeLayout: 0}
+	if sh.lit == 5 && v.Deep() {
+		// thorough tier: every layout of the two multi-valued properties (typed only, plain first,
+		// typed first, plain only, single typed value)
+		sh.labelLayout, sh.sizeLayout = v.Choice("labelLayout", 5), v.Choice("sizeLayout", 5)
+	}
 	traces, subs, loc := 1+v.Choice("traces", 2), v.Choice("subs", 3), v.Choice("loc", 2) == 1
 	for d := 0; d <= depth; d++ {
 		sh.traces[d] = traces
